@@ -519,6 +519,21 @@ func c09Ladder(c *mc.Check) {
 	// other spellings of plain numbers: zero-padded, signed, fractional, huge integers whose float values differ,
 	// a number between two others that is not a digit string (transitivity across spellings)
 	vals = append(vals, "007", "08", "010", "9", "10", "8.5", "+7.5", "-0.5", "18446744073709551616", "9007199254740993", "1e-3", ".25", "3.")
+	// prefixed values whose scaled value is not a whole number, next to plain numbers just below, at and just above
+	// them and their roundings
+	vals = append(vals, "1.2345k", "1234.4", "1234.5", "1234.6", "1235", "1.2344k", "1234", "1.0005Ki", "1024.5", "1024.6", "1025",
+		"0.0004k", "0.25", "0.4", "0.6", "1.5B", "1.75", "1.25", "2.5B", "2.25", "0.0015M", "1500.5", "1.5005k")
+	{
+		seen := map[string]bool{}
+		var u []string
+		for _, v := range vals {
+			if !seen[v] {
+				seen[v] = true
+				u = append(u, v)
+			}
+		}
+		vals = u
+	}
 	check := func(order []int) string {
 		var pp ProjectionParser
 		p, err := pp.Parse("k@num", nil)
